@@ -12,6 +12,10 @@ cleanup() { git -C /repo worktree remove --force "$WT" >/dev/null 2>&1; rm -rf "
 trap cleanup EXIT
 LOG="$WT/confirm.log"; : > "$LOG"
 CXX="g++ -std=c++17 -O1 -I$WT/include -I/usr/include/eigen3"
+# honour special needs stated in the demo's compile-command comment
+head -30 "$SRC/demo.cpp" | grep -q -- "-fopenmp" && CXX="$CXX -fopenmp"
+head -30 "$SRC/demo.cpp" | grep -q -- "-fsanitize=address" && CXX="$CXX -fsanitize=address"
+head -30 "$SRC/demo.cpp" | grep -q -- "-fsanitize=thread" && CXX="clang++ -std=c++17 -O1 -fsanitize=thread -I$WT/include -I/usr/include/eigen3"
 $CXX "$SRC/demo.cpp" -o "$WT/demo_clean" -lpthread >>"$LOG" 2>&1 || { echo "$ID: demo does not compile on the clean tree"; tail -5 "$LOG"; exit 1; }
 ( cd "$WT" && timeout 600 ./demo_clean ) >"$WT/demo_clean.out" 2>&1; RC_CLEAN=$?
 git -C "$WT" apply "$SRC/patch.diff" || { echo "$ID: patch does not apply"; exit 1; }
